@@ -72,10 +72,11 @@ def _update_gaps(self, timestamp, newest, record_as_missing):
     elif HOLE_jump:
         self._gaps = [Gap(start=HOLE_jump_s, end=HOLE_jump_e)]
     else:
-        if HOLE_created:
+        if found_in_gaps:
+            if len(self._gaps) > 0:
+                self._remove_gap(timestamp)
+        elif HOLE_created:
             self._gaps.append(Gap(start=HOLE_created_s, end=HOLE_created_e))
-        if len(self._gaps) > 0 and found_in_gaps:
-            self._remove_gap(timestamp)
         self._cleanup_gaps()
 """
 
@@ -98,11 +99,14 @@ def _cleanup_gaps(self):
             del self._gaps[i]
         elif HOLE_rolled:
             w_1.start = self._timestamp_oldest
-        elif w_2 is not None and HOLE_subset:
-            del self._gaps[i + 1]
-        elif w_2 is not None and HOLE_neighbor:
-            w_1.end = w_2.end
-            del self._gaps[i + 1]
+        elif w_2 is not None:
+            if HOLE_subset:
+                del self._gaps[i + 1]
+            elif HOLE_apart:
+                i += 1
+            else:
+                w_1.end = w_2.end
+                del self._gaps[i + 1]
         else:
             i += 1
 """
@@ -176,7 +180,8 @@ def generate(repo: pathlib.Path) -> str:
               "`_update_gaps`: valid value so far ahead that every older slot leaves the window")
     emit_int("ugJumpStart", "(oldest selfNewest : Int)", tr(h["jump_s"], ug), "start of the single gap after a jump")
     emit_int("ugJumpEnd", "(oldest selfNewest : Int)", tr(h["jump_e"], ug), "end of the single gap after a jump")
-    emit_prop("ugCreated", "(foundInGaps : Bool) (timestamp newest period : Int)", prop(h["created"], ug),
+    emit_prop("ugCreated", "(foundInGaps : Bool) (timestamp newest period : Int)", # (the decision on `found_in_gaps` comes first in the normal form: the recorded test is the conjunction)
+              prop(ast.BoolOp(op=ast.And(), values=[negate(ast.Name(id="found_in_gaps", ctx=ast.Load())), h["created"]]), ug),
               "`_update_gaps`: the valid value skipped slots after the previous newest one")
     emit_int("ugCreatedStart", "(timestamp newest period : Int)", tr(h["created_s"], ug), "start of the skipped range")
     emit_int("ugCreatedEnd", "(timestamp newest period : Int)", tr(h["created_e"], ug), "end of the skipped range")
@@ -184,13 +189,14 @@ def generate(repo: pathlib.Path) -> str:
     emit_int("ugMissingEnd", "(timestamp newest period : Int)", tr(h["missing_e"], ug), "end of the gap recorded for a missing value")
     holes("OrderedRingBuffer", "is_missing", SK_IS_MISSING)
 
-    # ---- _cleanup_gaps  (the `w_2 and …` guards stay in the pattern; the holes are the remaining conjuncts)
+    # ---- _cleanup_gaps  (the `w_2 is not None` decision stays in the pattern; in the normal form the positive test
+    # "the next gap lies apart" comes first: the recorded test is its negation)
     h = holes("OrderedRingBuffer", "_cleanup_gaps", SK_CLEANUP)
     cl = {"w_1.start": "w1s", "w_1.end": "w1e", "w_2.start": "w2s", "w_2.end": "w2e", "self._timestamp_oldest": "oldest"}
     emit_prop("clOutdated", "(w1s w1e oldest : Int)", prop(h["outdated"], cl), "`_cleanup_gaps`: the gap ends before the window")
     emit_prop("clRolled", "(w1s w1e oldest : Int)", prop(h["rolled"], cl), "`_cleanup_gaps`: the gap starts before the window")
     emit_prop("clSubset", "(w1s w1e w2s w2e : Int)", prop(h["subset"], cl), "`_cleanup_gaps`: the next gap is contained in this one")
-    emit_prop("clNeighbor", "(w1s w1e w2s w2e : Int)", prop(h["neighbor"], cl), "`_cleanup_gaps`: the next gap touches or overlaps this one")
+    emit_prop("clNeighbor", "(w1s w1e w2s w2e : Int)", prop(negate(h["apart"]), cl), "`_cleanup_gaps`: the next gap touches or overlaps this one")
 
     # ---- _remove_gap
     h = holes("OrderedRingBuffer", "_remove_gap", SK_REMOVE)
